@@ -112,7 +112,7 @@ T = {
 
 
 def main():
-    logdir = sys.argv[1] if len(sys.argv) > 1 else "/dev/shm"
+    logdir = sys.argv[1] if len(sys.argv) > 1 else "/verif/seeded/confirm_logs"
     rows = []
     for sid, (change, needs, det, note, suite) in sorted(T.items()):
         d = f"/verif/seeded/{sid}"
